@@ -205,3 +205,7 @@ UNITS += [text_bom]
 for _u in UNITS:
     if not _u.replay:
         _u.replay = replay.battery('C17/driver.cpp', ['battery'])
+
+# planted one-token breaks for the newer units (thorough tier: each must make an obligation fail)
+dir_copy.planted = [('cp', r'n == sizeof\(buffer\)', 'n == 8')]
+text_bom.planted = [('tb', r'g_pos = \(0\);', 'g_pos += (-2);')]
